@@ -3,3 +3,5 @@ A = rg_common.pairs(); P = page_common.pairs()
 PAIRS = [A[k] for k in ("thread_free_collect", "try_use_delayed_free", "free_block_delayed_mt", "delayed_free_partial")] + [P[k] for k in ("free_block_local", "unfull", "to_full")]
 import page_common as _pc
 PAIRS += _pc.malloc_generic_pairs()      # generic path: retry once after a forced collect, NULL only when the page search failed twice; periodic drain of delayed frees
+import heap_collect_common as _hc
+PAIRS += [_hc.pair()]      # mi_heap_collect_ex: steps, force flags and order of a collection
